@@ -6,6 +6,13 @@
     stream(ctx, ...)                              glue used by the per-property modules: seeds -> explore -> domain filter
                                                   -> the module's own pipeline (path 'sitecov') -> one note in the evidence
 
+`instrument` also takes a class (every function of the class body is instrumented; the twin class lives in a copy of
+the module namespace, so recursive construction `Index(...)` builds twins) or a method (`rtree.Index.intersection`).
+`explore` also takes argument tuples whose numbers are nested in lists / tuples of any (per seed different) shape:
+every numeric leaf is a coordinate of the search; bounds and kinds are then keyed by the leaf's path, e.g. (1, 0, 1) =
+args[1][0][1]; `domain`, `adjust` and `apply` receive freshly built nested arguments.  fractions.Fraction leaves stay
+Fractions (kind 'frac': exact rational moves).
+
 A *site* is one link of an `ast.Compare` (every link of a chained comparison is its own site) or a truthiness test
 (`if`/`elif`/`while`/ternary/comprehension-`if` test - or an operand of `and`/`or`/`not` inside such a test - that is
 not a comparison).  Site id: "<function>:<line>:<col>:<op>" with the line number of the real source file.
@@ -25,7 +32,7 @@ _OPS = {ast.Eq: ('==', operator.eq), ast.NotEq: ('!=', operator.ne), ast.Lt: ('<
         ast.LtE: ('<=', operator.le), ast.Gt: ('>', operator.gt), ast.GtE: ('>=', operator.ge),
         ast.Is: ('is', operator.is_), ast.IsNot: ('is not', operator.is_not),
         ast.In: ('in', lambda a, b: a in b), ast.NotIn: ('not in', lambda a, b: a not in b)}
-_CMP, _TRUTH = '__sc_cmp', '__sc_truth'
+_CMP, _TRUTH = '_sc_cmp_', '_sc_truth_'      # no leading double underscore: class bodies would mangle it
 _INF = float('inf')
 TRACE_CAP = 4096          # probe records kept per call (loops)
 
@@ -93,6 +100,8 @@ class Twin:
         self.trace = []
         self._ops = []
         self.fn = None
+        self.cls = None           # the twin class when a class or a method was instrumented
+        self.env = None
 
     # -- probes (must never change behaviour: the comparison itself runs first and may raise like the original) --
     def _cmp(self, i, lhs, rhs):
@@ -142,9 +151,12 @@ class Twin:
 
     def same_as_original(self, *args, **kw):
         """run both; True when results (or exception types and messages) agree"""
+        import copy
+
         def one(f):
             try:
-                return ('ok', f(*args, **kw))
+                a, k = copy.deepcopy((args, kw))          # the function may reduce its arguments in place
+                return ('ok', f(*a, **k))
             except Exception as ex:   # noqa
                 return ('exc', type(ex), str(ex))
         a, b = one(self.original), one(self)
@@ -197,7 +209,7 @@ class _Instr(ast.NodeTransformer):
             rhs = operands[k + 1]
             if k + 1 < len(idxs):      # this operand is needed again by the next link: evaluate it once
                 self.ntmp += 1
-                tmp = f'__sc_t{self.ntmp}'
+                tmp = f'_sc_t{self.ntmp}_'
                 rhs_expr = ast.NamedExpr(target=ast.Name(id=tmp, ctx=ast.Store()), value=rhs)
                 nxt = ast.Name(id=tmp, ctx=ast.Load())
             else:
@@ -210,7 +222,7 @@ class _Instr(ast.NodeTransformer):
 
     def _test(self, e):
         """rewrite an expression that is used for its truth value only"""
-        if self._done(e):
+        if self._done(e) or isinstance(e, ast.Constant):
             return e
         if isinstance(e, ast.BoolOp):
             e.values = [self._test(v) for v in e.values]
@@ -243,7 +255,7 @@ class _Instr(ast.NodeTransformer):
 
 
 def _called_functions(tree, module, seen):
-    """module-level Python functions of `module` referenced by name inside `tree` (alias -> function)"""
+    """module-level Python functions and classes of `module` referenced by name inside `tree` (alias -> object)"""
     out = {}
     for n in ast.walk(tree):
         if isinstance(n, ast.Name) and isinstance(n.ctx, ast.Load):
@@ -251,60 +263,102 @@ def _called_functions(tree, module, seen):
             if isinstance(obj, types.FunctionType) and obj.__globals__ is module.__dict__ and obj not in seen \
                     and not obj.__closure__:
                 out[n.id] = obj
+            elif inspect.isclass(obj) and getattr(obj, '__module__', None) == module.__name__ and obj not in seen:
+                out[n.id] = obj
     return out
 
 
-def _parse(func):
-    lines, lnum = inspect.getsourcelines(func)
+def _parse(obj):
+    lines, lnum = inspect.getsourcelines(obj)
     tree = ast.parse(textwrap.dedent(''.join(lines)))
     ast.increment_lineno(tree, lnum - 1)
-    fdefs = [n for n in tree.body if isinstance(n, (ast.FunctionDef, ast.AsyncFunctionDef))]
-    if len(fdefs) != 1:
-        raise ValueError(f'sitecov: cannot isolate the definition of {func!r}')
-    return tree, fdefs[0]
+    want = ast.ClassDef if inspect.isclass(obj) else (ast.FunctionDef, ast.AsyncFunctionDef)
+    defs = [n for n in tree.body if isinstance(n, want)]
+    if len(defs) != 1:
+        raise ValueError(f'sitecov: cannot isolate the definition of {obj!r}')
+    return tree, defs[0]
+
+
+def _owner_class(func, module):
+    """the class of `module` in whose body the plain function `func` is defined (a method), or None"""
+    parts = func.__qualname__.split('.')
+    if len(parts) < 2 or '<locals>' in parts:
+        return None
+    obj = module
+    for name in parts[:-1]:
+        obj = getattr(obj, name, None)
+        if obj is None:
+            return None
+    return obj if inspect.isclass(obj) and obj.__dict__.get(parts[-1]) is func else None
 
 
 def instrument(func, follow=True, walrus=True):
-    """instrumented twin of `func`, compiled in memory from the current source.  Module-level functions of the same
-    module that `func` references by name are instrumented too (`follow`).  Raises on functions without retrievable
-    source, closures and bound methods."""
-    func = inspect.unwrap(func)
-    if not isinstance(func, types.FunctionType):
-        raise TypeError(f'sitecov: not a plain Python function: {func!r}')
-    if func.__closure__:
-        raise TypeError('sitecov: closures are not supported')
+    """instrumented twin of `func`, compiled in memory from the current source.
+
+    func    a module-level function, a class (all functions of its body are instrumented; `twin.cls` is the twin class
+            and calling the twin constructs an instance) or a method given as `Class.method` (`twin(self, ...)` calls
+            the instrumented function; `twin.cls` is the twin class, so `twin.cls(...)` builds an object whose methods
+            are all instrumented)
+    follow  module-level functions and classes of the same module that the code references by name are instrumented
+            too (so recursion through the class name and helper calls stay inside the twin)
+    Raises on objects without retrievable source and on closures."""
+    target_attr = None
+    if not inspect.isclass(func):
+        func = inspect.unwrap(func)
+        if not isinstance(func, types.FunctionType):
+            raise TypeError(f'sitecov: not a plain Python function or class: {func!r}')
+        if func.__closure__:
+            raise TypeError('sitecov: closures are not supported')
     module = inspect.getmodule(func)
-    if module is None or func.__globals__ is not module.__dict__:
+    if module is None or (not inspect.isclass(func) and func.__globals__ is not module.__dict__):
         raise TypeError('sitecov: cannot find the defining module')
+    root = func
+    if not inspect.isclass(func):
+        owner = _owner_class(func, module)
+        if owner is not None:
+            target_attr, root = func.__name__, owner
     twin = Twin(func)
-    todo, seen, defs, aliases = [(func.__name__, func)], [func], [], {}
+    todo, seen, defs, aliases = [(root.__name__, root)], [root], [], {}
     while todo:
         alias, f = todo.pop(0)
-        tree, fdef = _parse(f)
+        tree, node = _parse(f)
         if follow:
-            for a, g in _called_functions(tree, module, seen).items():
+            for a_, g in _called_functions(tree, module, seen).items():
                 seen.append(g)
-                todo.append((a, g))
+                todo.append((a_, g))
         if alias != f.__name__:
             aliases[alias] = f.__name__
-        twin.functions.append(f.__name__)
-        tr = _Instr(twin, f.__name__, walrus)
-        fdef = tr.visit(fdef)
-        defs.append(fdef)
+        if isinstance(node, ast.ClassDef):
+            for k, sub in enumerate(node.body):
+                if isinstance(sub, (ast.FunctionDef, ast.AsyncFunctionDef)):
+                    qn = f'{f.__name__}.{sub.name}'
+                    twin.functions.append(qn)
+                    node.body[k] = _Instr(twin, qn, walrus).visit(sub)
+        else:
+            twin.functions.append(f.__name__)
+            node = _Instr(twin, f.__name__, walrus).visit(node)
+        defs.append(node)
+    defs.sort(key=lambda n: n.lineno)          # module order: base classes before the classes that name them
     mod = ast.Module(body=defs, type_ignores=[])
     ast.fix_missing_locations(mod)
     env = dict(vars(module))
     env[_CMP], env[_TRUTH] = twin._cmp, twin._truth
     try:
-        code = compile(mod, inspect.getsourcefile(func) or f'<sitecov {func.__name__}>', 'exec')
+        code = compile(mod, inspect.getsourcefile(root) or f'<sitecov {root.__name__}>', 'exec')
     except SyntaxError:
         if walrus:                 # a chained comparison in a place where := is not allowed: leave chains alone
             return instrument(func, follow, walrus=False)
         raise
     exec(code, env)
-    for a, n in aliases.items():
-        env[a] = env[n]
-    twin.fn = env[func.__name__]
+    for a_, n in aliases.items():
+        env[a_] = env[n]
+    twin.env = env
+    if inspect.isclass(root):
+        twin.cls = env[root.__name__]
+        twin.fn = twin.cls if target_attr is None else twin.cls.__dict__[target_attr]
+    else:
+        twin.cls = None
+        twin.fn = env[root.__name__]
     return twin
 
 
@@ -315,24 +369,88 @@ class Moves:
     """restrictions on the moves of `explore`.
 
     kinds   per argument index: 'int' (stays an int), 'float' (stays a float), 'num' (int when integral, else float),
-            'fixed' (never changed).  Default: from the type of the seed's value; non-numeric values are fixed.
+            'frac' (stays a fractions.Fraction: exact rational moves), 'fixed' (never changed).  Default: from the type
+            of the seed's value; non-numeric values are fixed.
     lo, hi  per argument index: inclusive bounds (candidates are clamped)
+            With nested arguments (lists / tuples of numbers) the keys of kinds / lo / hi are leaf paths, e.g. (1,) for
+            args[1] and (0, 2, 1) for args[0][2][1]; `kinds` may also be a callable(path, value) -> kind | None.
     domain  callback(args tuple) -> bool; candidates outside are neither evaluated nor returned
-    adjust  callback(list of args) -> tuple | None applied to every candidate (may repair or reject it)
+    adjust  callback(list of args, changed) -> args | None applied to every candidate; `changed` is the index (leaf path
+            with nested arguments) of the coordinate that was just moved.  It may repair the candidate (e.g. drag x_max
+            along when x_min was moved past it, so that min <= max survives the move) or reject it (None)
+    groups  callback(index or leaf path, value) -> group id | None: all coordinates with the same id can also be shifted
+            TOGETHER by one amount (a translation of all x coordinates keeps every relation between them, so an
+            input can be carried to `x == 37` without tearing the figure apart)
     """
 
-    def __init__(self, kinds=None, lo=None, hi=None, domain=None, adjust=None):
-        self.kinds, self.lo, self.hi, self.domain, self.adjust = dict(kinds or {}), dict(lo or {}), dict(hi or {}), domain, adjust
+    def __init__(self, kinds=None, lo=None, hi=None, domain=None, adjust=None, groups=None):
+        self.kinds = kinds if callable(kinds) else dict(kinds or {})
+        self.lo, self.hi, self.domain, self.adjust, self.groups = dict(lo or {}), dict(hi or {}), domain, adjust, groups
 
     def kind(self, j, v):
-        k = self.kinds.get(j)
+        """j: argument index, or leaf path with nested arguments"""
+        k = self.kinds(j, v) if callable(self.kinds) else self.kinds.get(j)
         if k:
             return k
         if type(v) is int:
             return 'int'
         if type(v) is float:
             return 'float'
+        if type(v) is Fraction:
+            return 'frac'
         return 'fixed'
+
+
+class Shape:
+    """the nesting of one argument tuple: lists ('L') and tuples ('T') down to the leaves (None)"""
+    __slots__ = ('tree', 'paths', '_h')
+
+    def __init__(self, tree):
+        self.tree = tree
+        self.paths = []
+        self._walk(tree, ())
+        self._h = hash(tree)
+
+    def _walk(self, t, path):
+        if t is None:
+            self.paths.append(path)
+        else:
+            for k, sub in enumerate(t[1]):
+                self._walk(sub, path + (k,))
+
+    def __eq__(self, other):
+        return isinstance(other, Shape) and self.tree == other.tree
+
+    def __hash__(self):
+        return self._h
+
+    def __repr__(self):
+        return f'<shape {len(self.paths)} leaves>'
+
+
+def flatten(args):
+    """(Shape, leaf, leaf, ...) of a nested argument tuple"""
+    leaves = []
+
+    def walk(o):
+        if isinstance(o, (list, tuple)):
+            return ('L' if isinstance(o, list) else 'T', tuple(walk(x) for x in o))
+        leaves.append(o)
+        return None
+    tree = walk(tuple(args))
+    return (Shape(tree),) + tuple(leaves)
+
+
+def build(flat):
+    """fresh nested argument tuple from (Shape, leaves...)"""
+    it = iter(flat[1:])
+
+    def mk(t):
+        if t is None:
+            return next(it)
+        seq = [mk(x) for x in t[1]]
+        return seq if t[0] == 'L' else tuple(seq)
+    return mk(flat[0].tree)
 
 
 class _Obs:
@@ -345,10 +463,14 @@ def _absf(d):
 
 class _Explorer:
     INT_STEPS = [1, 2, 16, 256, 4096, 65536, 1 << 20, 1 << 24, 1 << 28, 1 << 32, 1 << 40]
+    MAXMAG = 1 << 160        # candidates of larger magnitude are not proposed
+    OCC = 3                  # executions of one site per call that are targets of their own (further ones are lumped)
 
-    def __init__(self, twin, moves, budget, rng, apply, keep):
+    def __init__(self, twin, moves, budget, rng, apply, keep, nested=False):
         self.twin, self.mv, self.budget, self.rng = twin, moves or Moves(), budget, rng
-        self.apply = apply or (lambda tw, a: tw(*a))
+        self.nested = nested
+        call = apply or (lambda tw, a: tw(*a))
+        self.apply = (lambda tw, flat: call(tw, build(flat))) if nested else call
         self.keep = keep
         self.evals = 0
         self.rejects = 0
@@ -358,6 +480,7 @@ class _Explorer:
         self.noinf = {}          # (site, coordinate) -> number of fruitless line searches
         self.spent = {}
         self.flat = {}           # (site, coordinate) -> line searches in which no step changed the distance
+        self.gcache = {}         # shape -> {group pseudo-coordinate: member indices}
         self.limit = budget
         self.vused = {}          # (site, goal, coordinate) -> valley searches spent
         self.order = 0
@@ -366,6 +489,46 @@ class _Explorer:
     # ---- evaluation --------------------------------------------------------------------------
     def _key(self, args):
         return tuple((type(a).__name__, a) for a in args)
+
+    def pkey(self, args, j):
+        """the key of coordinate j in Moves.kinds / lo / hi: the index, or the leaf path with nested arguments"""
+        if type(j) is tuple:
+            return j
+        return args[0].paths[j - 1] if self.nested and j > 0 else j
+
+    def kind(self, args, j):
+        if type(j) is tuple:
+            return j[2]
+        if self.nested and j == 0:
+            return 'fixed'
+        return self.mv.kind(self.pkey(args, j), args[j])
+
+    def is_int(self, args, j):
+        k = self.kind(args, j)
+        return k == 'int' or (k == 'num' and type(self.getv(args, j)) is int)
+
+    def members(self, args, j):
+        """the coordinates moved by the (pseudo-)coordinate j: itself, or every member of the group ('G', id, kind)"""
+        if type(j) is not tuple:
+            return [j]
+        key = args[0] if self.nested else None
+        gs = self.gcache.get(key)
+        if gs is None:
+            gs = {}
+            if self.mv.groups is not None:
+                for m in range(1 if self.nested else 0, len(args)):
+                    k = self.mv.kind(self.pkey(args, m), args[m])
+                    if k == 'fixed':
+                        continue
+                    gid = self.mv.groups(self.pkey(args, m), args[m])
+                    if gid is not None:
+                        gs.setdefault(('G', gid, k), []).append(m)
+            gs = {g: ms for g, ms in gs.items() if len(ms) >= 2}
+            self.gcache[key] = gs
+        return gs.get(j, [])
+
+    def getv(self, args, j):
+        return args[self.members(args, j)[0]] if type(j) is tuple else args[j]
 
     def ev(self, args):
         """observe one input (cached).  None when rejected (domain, budget)"""
@@ -377,7 +540,7 @@ class _Explorer:
             ok = False
             if self.rejects <= 4 * self.budget + 1000:
                 try:
-                    ok = bool(self.mv.domain(args))
+                    ok = bool(self.mv.domain(build(args) if self.nested else args))
                 except Exception:          # noqa: a domain predicate that cannot judge the input rejects it
                     ok = False
             if not ok:
@@ -396,8 +559,14 @@ class _Explorer:
             exc = ex
         ob = _Obs()
         ob.args, ob.exc = args, exc
-        hits, path = {}, []
-        for (i, d, out, intv, mag) in tw.trace:
+        hits, path, occ = {}, [], {}
+        for (si, d, out, intv, mag) in tw.trace:
+            # dynamic site = (static site, k-th execution in this call) for the first OCC executions, the rest lumped:
+            # in a loop (or a helper called for several points) each early execution is a target of its own - otherwise
+            # e.g. "the clipped point lies on the edge" in pass 2 would hide "the INPUT point lies on the edge"
+            k = occ.get(si, 0)
+            occ[si] = k + 1
+            i = (si, k if k < self.OCC else self.OCC)
             if len(path) < 256:
                 path.append((i, out))
             c = self.cov.get(i)
@@ -437,7 +606,7 @@ class _Explorer:
                     elif d == c['neg'] and len(c['in_neg']) < self.keep and args not in c['in_neg']:
                         c['in_neg'].append(args)
                 h = hits.get(i)
-                if h is None or ad < _absf(h[0]):
+                if h is None or h[0] is None or ad < _absf(h[0]):
                     hits[i] = (d, out, intv, mag)
             elif i not in hits:
                 hits[i] = (None, out, False, 0)
@@ -457,16 +626,28 @@ class _Explorer:
 
     # ---- candidate construction --------------------------------------------------------------
     def coords(self, args):
-        return [j for j, v in enumerate(args) if self.mv.kind(j, v) != 'fixed']
+        cs = [j for j in range(len(args)) if self.kind(args, j) != 'fixed']
+        if self.mv.groups is not None:
+            self.members(args, ('G', None, None))         # fills the cache for this shape
+            cs += sorted(self.gcache[args[0] if self.nested else None], key=repr)
+        return cs
 
     def with_value(self, args, j, val):
         """args with coordinate j set to the rational `val` (respecting kind and bounds) - list of candidate tuples"""
-        kind = self.mv.kind(j, args[j])
-        lo, hi = self.mv.lo.get(j), self.mv.hi.get(j)
+        kind = self.kind(args, j)
+        pk = self.pkey(args, j)
+        lo, hi = self.mv.lo.get(pk), self.mv.hi.get(pk)
+        if _absf(val) > self.MAXMAG:       # a secant through two nearly equal distances: do not follow it to astronomical values
+            return []
         vals = []
         if kind == 'int' or (kind == 'num' and Fraction(val).denominator == 1):
             f = math.floor(val)
             vals = [f] if f == val else [f, f + 1]
+        elif kind == 'frac':
+            v = Fraction(val)
+            if v.denominator.bit_length() > 80:       # secant / bisection on a non-linear relation: keep rationals readable
+                v = v.limit_denominator(1 << 64)      # (and bounded: denominators would square with every step)
+            vals = [v]
         else:
             try:
                 x = float(val)
@@ -480,17 +661,24 @@ class _Explorer:
         out = []
         for v in vals:
             if lo is not None and v < lo:
-                v = lo
+                v = type(v)(lo) if kind == 'frac' else lo
             if hi is not None and v > hi:
-                v = hi
-            if v == args[j] and type(v) is type(args[j]):
+                v = type(v)(hi) if kind == 'frac' else hi
+            cur_v = self.getv(args, j)
+            if v == cur_v and type(v) is type(cur_v):
                 continue
             c = list(args)
-            c[j] = v
+            if type(j) is tuple:
+                for m in self.members(args, j):            # the whole group moves by the same amount
+                    c[m] = args[m] + (v - cur_v)
+            else:
+                c[j] = v
             if self.mv.adjust is not None:
-                c = self.mv.adjust(c)
+                c = self.mv.adjust(list(build(c)) if self.nested else c, pk)
                 if c is None:
                     continue
+                if self.nested:
+                    c = flatten(c)
             c = tuple(c)
             if c not in out:
                 out.append(c)
@@ -498,14 +686,20 @@ class _Explorer:
 
     def steps(self, args, j):
         """exploratory step sizes for coordinate j (rationals), small first"""
-        v = args[j]
-        kind = self.mv.kind(j, v)
+        v = self.getv(args, j)
+        kind = self.kind(args, j)
         if kind == 'int' or (kind == 'num' and type(v) is int):
             out = []
             for s in self.INT_STEPS:
                 out += [s, -s]
                 if s > 4 * abs(v) + 4096:
                     break
+            return out
+        if kind == 'frac':
+            out = []
+            for s in (Fraction(1), Fraction(1, 2), Fraction(1, 16), Fraction(1, 1024), Fraction(1, 1 << 20), Fraction(2),
+                      Fraction(16), Fraction(256), Fraction(4096), Fraction(1 << 20)):
+                out += [s, -s]
             return out
         x = float(v)
         u = Fraction(math.ulp(x)) if x != 0 else Fraction(1, 1 << 60)
@@ -575,7 +769,7 @@ class _Explorer:
         if d0 is None or d0 == 0:
             return None
         best, bestd = None, _absf(d0)
-        x0 = Fraction(args[j])
+        x0 = Fraction(self.getv(args, j))
         pts = {x0: d0}             # coordinate value -> signed distance (site reached)
         lost = []
 
@@ -597,7 +791,7 @@ class _Explorer:
                     if ob is not None:
                         lost.append(c)
                     continue
-                pts[Fraction(c[j])] = d
+                pts[Fraction(self.getv(c, j))] = d
                 got = d
                 if _absf(d) < bestd:
                     best, bestd = c, _absf(d)
@@ -612,14 +806,14 @@ class _Explorer:
             if d1 is not None and d1 != d0:
                 slope_pt = x0 + st
                 break
-            if bestd == 0 or tried >= 14:
+            if bestd == 0 or tried >= 10:
                 break
         if bestd == 0:
             return best
         if slope_pt is None:
             # every small move loses the site (an equality guard on the way) or changes nothing: aim straight at the
             # goal assuming slope +-1 and let `repair` restore the guards
-            if allow_repair and lost and type(d0) is int:
+            if allow_repair and lost:
                 for val in (x0 - d0, x0 + d0):
                     probe(val, True)
                     if bestd == 0:
@@ -628,6 +822,7 @@ class _Explorer:
                 self.flat[(s, j)] = self.flat.get((s, j), 0) + 1      # this coordinate does not move the site at all
             return best
         # 2. secant / bisection
+        tried_sec = set()
         for _ in range(iters):
             if bestd == 0:
                 break
@@ -640,9 +835,12 @@ class _Explorer:
                         br = (a, b)
             if br is not None:
                 a, b = br
-                kind = self.mv.kind(j, args[j])
-                if kind == 'int' or (kind == 'num' and type(args[j]) is int):
+                kind = self.kind(args, j)
+                if kind == 'int' or (kind == 'num' and type(self.getv(args, j)) is int):
                     if b - a <= 1:
+                        break
+                elif kind == 'frac':
+                    if (b - a) * (1 << 60) <= max(1, abs(a), abs(b)):
                         break
                 else:
                     if float(b) == math.nextafter(float(a), _INF) or float(a) == float(b):
@@ -650,7 +848,8 @@ class _Explorer:
                 # secant inside the bracket, falling back to the midpoint
                 t = a - pts[a] * (b - a) / (pts[b] - pts[a])
                 mid = (a + b) / 2
-                cand = t if (a < t < b and self.rng.random() < 0.5) else mid
+                cand = t if (a < t < b and (kind == 'frac' and t not in tried_sec or self.rng.random() < 0.5)) else mid
+                tried_sec.add(t)
                 n_before = len(pts)
                 probe(cand, True)
                 if len(pts) == n_before:
@@ -679,9 +878,10 @@ class _Explorer:
         if bestd != 0 and valley and type(d0) is int and min(_absf(v) for v in pts.values()) <= 8 \
                 and self.vused.get((s, goal, j), 0) < 8:
             self.vused[(s, goal, j)] = self.vused.get((s, goal, j), 0) + 1
-            is_int = self.mv.kind(j, args[j]) == 'int' or (self.mv.kind(j, args[j]) == 'num' and type(args[j]) is int)
+            is_int = self.is_int(args, j)
+            is_frac = self.kind(args, j) == 'frac'
             a0 = min(pts, key=lambda x: (_absf(pts[x]), _absf(x - x0)))
-            lostx = sorted({Fraction(c[j]) for c in lost})
+            lostx = sorted({Fraction(self.getv(c, j)) for c in lost})
             for direction in (1, -1):
                 a, fa = a0, _absf(pts[a0])
                 # the nearest known point beyond `a` that is worse or lost
@@ -698,7 +898,8 @@ class _Explorer:
                             a = max(keep_in, key=lambda x: _absf(x - a0))
                             fa = _absf(pts[a])
                 if b is None:                   # find a worse point by doubling
-                    st = 1 if is_int else max(Fraction(math.ulp(float(a))), _absf(a) / (1 << 40))
+                    st = 1 if is_int else Fraction(1, 1 << 20) if is_frac else \
+                        max(Fraction(math.ulp(float(a))), _absf(a) / (1 << 40))
                     for _ in range(40):
                         st *= 4
                         n_lost = len(lost)
@@ -707,7 +908,7 @@ class _Explorer:
                             return best
                         if d is None:
                             if len(lost) > n_lost:
-                                b = Fraction(lost[-1][j])
+                                b = Fraction(self.getv(lost[-1], j))
                             break
                         if _absf(d) > fa:
                             b = a + direction * st
@@ -722,6 +923,10 @@ class _Explorer:
                         if _absf(b - a) <= 1:
                             break
                         mid = Fraction(math.floor((a + b) / 2))
+                    elif is_frac:
+                        if _absf(b - a) * (1 << 60) <= max(1, _absf(a), _absf(b)):
+                            break
+                        mid = (a + b) / 2
                     else:
                         mid = Fraction(float((a + b) / 2))
                         if mid == a or mid == b:
@@ -746,6 +951,19 @@ class _Explorer:
             improved = False
             cs = self.coords(cur)
             self.rng.shuffle(cs)
+            if len(cs) > 3:
+                # sensitivity scan (one evaluation per coordinate): the coordinates that move this site come first, so
+                # that a small per-attempt budget is not used up on the plateaus of the coordinates that do not
+                live = []
+                for j in cs:
+                    if self.evals >= self.limit:
+                        break
+                    st = self.steps(cur, j)[0]
+                    for c in self.with_value(cur, j, Fraction(self.getv(cur, j)) + st)[:1]:
+                        d1 = self.value(self.ev(c), s, goal)
+                        if d1 is None or d1 != d:
+                            live.append(j)
+                cs = live + [j for j in cs if j not in live]
             for j in cs:
                 if self.noinf.get((s, j), 0) >= 2 or self.flat.get((s, j), 0) >= 3:
                     continue
@@ -757,8 +975,13 @@ class _Explorer:
                     continue
                 nd = self.value(self.ev(nxt), s, goal)
                 if nd is not None and _absf(nd) < _absf(d):
-                    cur, d, improved = nxt, nd, True
+                    prev, cur, d, improved = cur, nxt, nd, True
                     if d == 0:
+                        # reached by moving one coordinate; reach it also by translating each group as a whole
+                        # (the relations between the members survive): a second, differently shaped witness
+                        for g in cs:
+                            if type(g) is tuple and g != j and self.evals < self.limit:
+                                self.line(s, goal, prev, g, allow_repair=False, iters=3, valley=False)
                         return
             if not improved:
                 break
@@ -771,7 +994,7 @@ class _Explorer:
         live = [k for k in cs if not self.flat.get((s, k))]
         for j in cs:
             for st in (1, -1, 2, -2, 3, -3):
-                for c in self.with_value(cur, j, Fraction(cur[j]) + st):
+                for c in self.with_value(cur, j, Fraction(self.getv(cur, j)) + st):
                     if self.evals >= min(self.limit, stop_at) or npairs >= 40:
                         return
                     ob = self.ev(c)
@@ -795,9 +1018,9 @@ class _Explorer:
         if not c['numeric']:
             return []
         g = []
-        if not c['hit_equal']:
+        if len(c['in_eq']) < min(self.keep, 4):       # equality from several different starts: differently shaped witnesses
             g.append(0)
-        if c['int_valued']:
+        if c['int_valued'] and self.twin.sites[i[0]].kind != 'truth':
             if c['pos'] != 1:
                 g.append(1)
             if c['neg'] != -1:
@@ -809,10 +1032,15 @@ class _Explorer:
         c = self.cov[i]
         for a in (c['in_eq'][:1] + c['in_pos'][:1] + c['in_neg'][:1]):
             for j in self.coords(a):
+                if type(j) is tuple:
+                    continue
                 v = a[j]
-                kind = self.mv.kind(j, v)
+                kind = self.kind(a, j)
                 if kind == 'int':
                     vals = [v + 1, v - 1]
+                elif kind == 'frac':
+                    e = max(1, abs(v)) * Fraction(1, 1 << 51)
+                    vals = [v + e, v - e, v + 1, v - 1]
                 elif kind == 'num' and type(v) is int:
                     vals = [v + 1, v - 1, math.nextafter(float(v), _INF), math.nextafter(float(v), -_INF)]
                 else:
@@ -828,6 +1056,8 @@ class _Explorer:
         if not c['numeric']:
             return True
         if c['int_valued']:
+            if self.twin.sites[i[0]].kind == 'truth':
+                return True
             return c['pos'] == 1 and c['neg'] == -1
         tiny = Fraction(c['mag']) / (1 << 50) if c['mag'] else 0
         return c['pos'] is not None and c['neg'] is not None and c['pos'] <= tiny and -c['neg'] <= tiny
@@ -839,52 +1069,59 @@ class _Explorer:
             if self.evals >= max(1, self.budget // 3):
                 break
             self.ev(a)
-        attempts, fails, bestg = {}, {}, {}
-        cap = max(80, self.budget // 25)           # evaluations one (site, goal) may consume in one attempt
+        attempts, fails, capk = {}, {}, {}
+        cap0 = max(30, self.budget // 80)          # evaluations a first attempt at one (site, goal) may consume
+        capmax = max(80, self.budget // 12)        # ... and an attempt at a goal that has been getting closer
         rounds, level = 0, 2
+
+        def dist_now(i, goal):
+            c = self.cov[i]
+            if goal == 0 and c['hit_equal']:
+                return -len(c['in_eq'])            # still improving while further witnesses are found
+            ds = [_absf(x - goal) for x in (c['pos'], c['neg']) if x is not None]
+            return min(ds) if ds else None
         while self.evals < self.budget and rounds < 60:
             rounds += 1
             progress = False
-            for i in sorted(self.cov):
-                for goal in self.goals(i):
-                    if self.evals >= self.budget:
-                        break
-                    key = (i, goal)
-                    # a goal that may be unreachable (guarded by an earlier return, a floor/ceil gap ...) is given up
-                    # after two attempts without getting closer; its budget goes to the others
-                    if fails.get(key, 0) >= level or self.spent.get(key, 0) >= 2 * level * cap:
-                        continue
-                    n = attempts.get(key, 0)
-                    attempts[key] = n + 1
-                    p = self.pool.get(i, [])
-                    if not p:
-                        continue
-                    if n % 3 == 0:      # the closest known inputs, one after the other
-                        q = sorted(p, key=lambda t: (_absf(t[0] - _absf(goal)), t[1]))
-                        pick = q[min(len(q) - 1, n // 3)]
-                    elif n % 3 == 1:    # a small input: exact coincidences (b*b == 2*a*c ...) are likelier among small numbers
-                        q = sorted(p, key=lambda t: (self.size(t[2]), t[1]))
-                        pick = q[min(len(q) - 1, n // 3)]
-                    else:               # anywhere: different starts reach different basins
-                        pick = p[self.rng.randrange(len(p))]
-                    before = self.evals
-                    self.limit = min(self.budget, before + (cap if not fails.get(key) else cap // 2))
-                    try:
-                        self.climb(i, goal, pick[2], pairs=(goal == 0 and n < 3))
-                    finally:
-                        self.limit = self.budget
-                    self.spent[key] = self.spent.get(key, 0) + self.evals - before
-                    c = self.cov[i]
-                    now = 0 if (goal == 0 and c['hit_equal']) else min(
-                        [_absf(x - goal) for x in (c['pos'], c['neg']) if x is not None] or [None])
-                    if key in bestg and (now is None or (bestg[key] is not None and now >= bestg[key])):
-                        fails[key] = fails.get(key, 0) + 1
-                    else:
-                        fails[key] = 0
-                        progress = progress or key in bestg
-                    if key not in bestg:
-                        progress = True
-                    bestg[key] = now
+            # lhs == rhs first for every site, then the values next to it
+            todo = [(i, g) for g in (0, 1, -1) for i in sorted(self.cov) if g in self.goals(i)]
+            for (i, goal) in todo:
+                if self.evals >= self.budget:
+                    break
+                if goal not in self.goals(i):
+                    continue
+                key = (i, goal)
+                # a goal that may be unreachable (guarded by an earlier return, a floor/ceil gap, a value that is not
+                # an input at all ...) is given up after `level` attempts that did not get closer
+                if fails.get(key, 0) >= level or self.spent.get(key, 0) >= 2 * level * capmax:
+                    continue
+                n = attempts.get(key, 0)
+                attempts[key] = n + 1
+                p = self.pool.get(i, [])
+                if not p:
+                    continue
+                if n % 3 == 0:      # the closest known inputs, one after the other
+                    q = sorted(p, key=lambda t: (_absf(t[0] - _absf(goal)), t[1]))
+                    pick = q[min(len(q) - 1, n // 3)]
+                elif n % 3 == 1:    # a small input: exact coincidences (b*b == 2*a*c ...) are likelier among small numbers
+                    q = sorted(p, key=lambda t: (self.size(t[2]), t[1]))
+                    pick = q[min(len(q) - 1, n // 3)]
+                else:               # anywhere: different starts reach different basins
+                    pick = p[self.rng.randrange(len(p))]
+                before, d_before = self.evals, dist_now(i, goal)
+                self.limit = min(self.budget, before + capk.get(key, cap0))
+                try:
+                    self.climb(i, goal, pick[2], pairs=(goal == 0 and n < 3))
+                finally:
+                    self.limit = self.budget
+                self.spent[key] = self.spent.get(key, 0) + self.evals - before
+                d_after = dist_now(i, goal)
+                if d_after is not None and (d_before is None or d_after < d_before):
+                    fails[key] = 0
+                    capk[key] = min(2 * capk.get(key, cap0), capmax)
+                    progress = True
+                else:
+                    fails[key] = fails.get(key, 0) + 1
             for i in sorted(self.cov):
                 if self.evals >= self.budget:
                     break
@@ -905,6 +1142,8 @@ class _Explorer:
                 n += v.bit_length()
             elif type(v) is float:
                 n += 53 if v != int(v) else int(abs(v)).bit_length()
+            elif type(v) is Fraction:
+                n += abs(v.numerator).bit_length() + v.denominator.bit_length()
         return n
 
     def results(self):
@@ -917,7 +1156,7 @@ class _Explorer:
             if k in seen or k in self.seedset:
                 return
             seen.add(k)
-            out.append(a)
+            out.append(build(a) if self.nested else a)
         for i in sorted(self.cov):
             c = self.cov[i]
             for a in c['in_eq'] + c['in_pos'] + c['in_neg']:
@@ -925,20 +1164,27 @@ class _Explorer:
             add(c['in_true'])
             add(c['in_false'])
         report = {}
-        for s in self.twin.sites:
-            c = self.cov.get(s.idx)
-            if c is None:
-                report[s.id] = {'hit_true': 0, 'hit_false': 0, 'hit_equal': 0, 'best_abs_diff': None, 'text': s.text,
-                                'reached': False, 'numeric': False, 'int_valued': False}
-            else:
-                report[s.id] = {'hit_true': c['hit_true'], 'hit_false': c['hit_false'], 'hit_equal': c['hit_equal'],
-                                'best_abs_diff': c['best_abs_diff'], 'text': s.text, 'reached': True,
-                                'numeric': c['numeric'], 'int_valued': c['numeric'] and c['int_valued'],
-                                'best_pos': c['pos'], 'best_neg': c['neg']}
+        for st in self.twin.sites:
+            cs = [self.cov[k] for k in sorted(self.cov) if k[0] == st.idx]
+            if not cs:
+                report[st.id] = {'hit_true': 0, 'hit_false': 0, 'hit_equal': 0, 'best_abs_diff': None, 'text': st.text,
+                                 'reached': False, 'numeric': False, 'int_valued': False}
+                continue
+            num = [c for c in cs if c['numeric']]
+            ps = [c['pos'] for c in num if c['pos'] is not None]
+            ns = [c['neg'] for c in num if c['neg'] is not None]
+            bs = [c['best_abs_diff'] for c in num if c['best_abs_diff'] is not None]
+            report[st.id] = {'hit_true': sum(c['hit_true'] for c in cs), 'hit_false': sum(c['hit_false'] for c in cs),
+                             'hit_equal': sum(c['hit_equal'] for c in cs), 'best_abs_diff': min(bs) if bs else None,
+                             'text': st.text, 'reached': True, 'numeric': bool(num),
+                             'int_valued': bool(num) and all(c['int_valued'] for c in num),
+                             'best_pos': min(ps) if ps else None, 'best_neg': max(ns) if ns else None,
+                             # per execution within one call (first, second, ..., lumped rest): equality reached?
+                             'equal_by_occurrence': [bool(c['hit_equal']) for c in num]}
         return out, report
 
 
-def explore(twin, seeds, mutate=None, budget=3000, rng=None, apply=None, keep=3):
+def explore(twin, seeds, mutate=None, budget=3000, rng=None, apply=None, keep=3, nested=None):
     """hill-climb every numeric comparison site of `twin` towards lhs - rhs = 0, +1, -1 (integer-valued sites) or to
     the closest value on either side (other sites), starting from the `seeds` (argument tuples).
 
@@ -951,8 +1197,11 @@ def explore(twin, seeds, mutate=None, budget=3000, rng=None, apply=None, keep=3)
     -> (inputs, report): `inputs` are the argument tuples that reached equality, the closest ones on either side and
     the first ones for either outcome of every site (seeds themselves excluded);
     report = {site id: {hit_true, hit_false, hit_equal, best_abs_diff, text, reached, numeric, int_valued, ...}}"""
-    ex = _Explorer(twin, mutate, budget, rng or random.Random(0), apply, keep)
-    ex.run(list(seeds))
+    seeds = [tuple(s_) for s_ in seeds]
+    if nested is None:
+        nested = any(isinstance(a, (list, tuple)) for s_ in seeds for a in s_)
+    ex = _Explorer(twin, mutate, budget, rng or random.Random(0), apply, keep, nested)
+    ex.run([flatten(s_) for s_ in seeds] if nested else seeds)
     inputs, report = ex.results()
     report_meta = {'evaluations': ex.evals, 'rejected_by_domain': ex.rejects}
     explore.last = report_meta
@@ -989,7 +1238,7 @@ def _short(d):
 # glue for the per-property modules
 # ----------------------------------------------------------------------------------------------
 def stream(ctx, label, func, seeds, rerun, moves=None, apply=None, budget=2500, to_case=None, max_inputs=400,
-           in_domain=None):
+           in_domain=None, keep=8):
     """the 'sitecov' input stream of one anchored function.
 
     func      the function object of the CURRENT source
@@ -1013,7 +1262,7 @@ def stream(ctx, label, func, seeds, rerun, moves=None, apply=None, budget=2500, 
             if not ok:
                 ctx.notes.append(f'sitecov[{label}]: twin differs from the function on {s}; stream skipped')
                 return []
-        inputs, report = explore(twin, seeds, moves, min(ctx.n(budget), 20 * budget), ctx.rng, apply)
+        inputs, report = explore(twin, seeds, moves, min(ctx.n(budget), 4 * budget), ctx.rng, apply, keep=keep)
     except Exception as ex:        # noqa
         ctx.notes.append(f'sitecov[{label}]: exploration failed: {ex!r}')
         return []
@@ -1050,3 +1299,126 @@ def stream(ctx, label, func, seeds, rerun, moves=None, apply=None, budget=2500, 
                      f'reported on them by the module\'s oracle / correspondence); '
                      f'{t1 - t0:.1f}s search + {time.time() - t1:.1f}s pipeline')
     return cases
+
+
+# ----------------------------------------------------------------------------------------------
+# re-entering a module's run() with other inputs (for modules whose pipeline is the body of run itself)
+# ----------------------------------------------------------------------------------------------
+class CtxProxy:
+    """a view of the harness context for a nested pass of run(): counters, reports, notes, driver and rng are those of
+    the real context; the attributes given as keywords (scale, replay, tie_broken, ...) are overridden"""
+
+    def __init__(self, ctx, **over):
+        object.__setattr__(self, '_ctx', ctx)
+        object.__setattr__(self, '_over', dict(over))
+
+    def __getattr__(self, k):
+        over = object.__getattribute__(self, '_over')
+        if k in over:
+            return over[k]
+        return getattr(object.__getattribute__(self, '_ctx'), k)
+
+    def __setattr__(self, k, v):
+        over = object.__getattribute__(self, '_over')
+        if k in over:
+            over[k] = v
+        else:
+            setattr(object.__getattribute__(self, '_ctx'), k, v)
+
+    def n(self, quick):
+        return quick * self.scale
+
+
+_MISSING = object()
+
+
+def rerun_patched(ctx, g, patches=None, over=None, replay=None, tolerate=('without input', 'without any input')):
+    """call g['run'] (the module's own run) once more on a CtxProxy, with the module globals in `patches` replaced for
+    the duration of the call (generators emptied, so that only the injected inputs flow through the pipeline).
+
+    replay    a JSON-serialisable replay payload: written to a temporary file whose name becomes ctx.replay of the
+              nested pass (for modules whose run() reads failing inputs back from a replay file)
+    tolerate  substrings of Infra messages that the nested pass may end with (its path-coverage requirement is
+              about the main pass); anything else propagates
+    The notes of the nested pass are dropped (they repeat the module's closing notes).  Returns True when the nested
+    pass was cut short by a tolerated Infra (whatever run() does after that point has then not been done)."""
+    import json, os, tempfile
+    from .common import Infra
+    patches, over = dict(patches or {}), dict(over or {})
+    path = None
+    if replay is not None:
+        fd, path = tempfile.mkstemp(prefix='sitecov_replay_', suffix='.json')
+        with os.fdopen(fd, 'w') as f:
+            json.dump(replay, f, default=str)
+        over['replay'] = path
+    saved = {k: g.get(k, _MISSING) for k in patches}
+    g.update(patches)
+    n_notes, n_ood = len(ctx.notes), len(ctx.out_of_domain)
+    known_ood = {repr(o) for o in ctx.out_of_domain}
+    ctx._in_sitecov = True
+    cut_short = False
+    try:
+        g['run'](CtxProxy(ctx, **over))
+    except Infra as ex:
+        if not any(t in str(ex) for t in tolerate):
+            raise
+        cut_short = True
+    finally:
+        for k, v in saved.items():
+            if v is _MISSING:
+                g.pop(k, None)
+            else:
+                g[k] = v
+        ctx._in_sitecov = False
+        if path is not None:
+            try:
+                os.remove(path)
+            except OSError:
+                pass
+    del ctx.notes[n_notes:]
+    ctx.out_of_domain[n_ood:] = [o for o in ctx.out_of_domain[n_ood:] if repr(o) not in known_ood]   # fixed probes repeat
+    return cut_short
+
+
+def only_mode(g, patches=None, environ=None, tail=None, note='', tolerate=('without input', 'without any input'),
+              scale_cap=1, over=None):
+    """EXPERIMENT ONLY (SITECOV_ONLY=1): replace g['run'] by a version that runs the module with its hand-written
+    boundary generators patched away (`patches`: module globals, `environ`: environment defaults), turns the
+    path-coverage requirement into a note and then runs the sitecov tail."""
+    import os
+    from .common import Infra
+    full = g['run']
+
+    def run(ctx):
+        if getattr(ctx, '_in_sitecov', False):
+            return full(ctx)
+        cap = 0 if os.environ.get('SITECOV_ONLY') == '2' else scale_cap     # '2': no random inputs at all, stream only
+        saved = {k: g.get(k, _MISSING) for k in (patches or {})}
+        saved_env = {k: os.environ.get(k) for k in (environ or {})}
+        g.update(patches or {})
+        os.environ.update(environ or {})
+        ctx._only_main = True          # the tail is called explicitly below, once
+        try:
+            try:
+                # the random part of the experiment runs at the plain quick budget even when the tie is broken (x10)
+                full(CtxProxy(ctx, **dict(over or {}, scale=min(ctx.scale, cap))) if scale_cap else ctx)
+            except Infra as ex:
+                if not any(t in str(ex) for t in tolerate):
+                    raise
+                ctx.notes.append('SITECOV_ONLY: ' + str(ex)[:300])
+        finally:
+            ctx._only_main = False
+            for k, v in saved.items():
+                if v is _MISSING:
+                    g.pop(k, None)
+                else:
+                    g[k] = v
+            for k, v in saved_env.items():
+                if v is None:
+                    os.environ.pop(k, None)
+                else:
+                    os.environ[k] = v
+        ctx.notes.append('SITECOV_ONLY: ' + note)
+        if tail is not None:
+            tail(ctx)
+    g['run'] = run
